@@ -289,11 +289,11 @@ Definition cover_funs : list cfun := [
     mkC OAddA MLLong "cellArea += area(i)" 0
       (Listed "cell_area_vals" 3 I64);
     mkC (OFloatToInt MDouble) MLLong "expandedArea += static_cast<double>(expansionFactor[i]) * area(i)" 0
-      (Excluded ENotListed "double -> long long of every partial sum: Properties_C18.c18f_factor_never_narrower ASSUMES |expanded_area_f| < 2^63 for the final value and proves nothing about the conversions; observed by -fsanitize=float-cast-overflow only");
+      (Excluded ECoveredElsewhere "Properties_links.c18_expanded_area_conversions_defined / c18_expanded_area_defined_by_factor_bound (listing LinksC18.expanded_conv_vals): finite factors in [0,E], movable areas in [0,2^53), E*movableArea + 2^12*nbCells <= 2^63; NOT implied by the accepted arguments: c18_expanded_area_overflow_witness (factor 2^33, UBSan coloquinte.cpp:749)");
     mkC OPreInc MInt "++i" 1
       (Excluded ELoopCounter "counter of a for loop tested against nbCells() (an int) before every increment");
     mkC (OFloatToInt MDouble) MInt "static_cast<int>(cellWidth_[i] * static_cast<double>(expansion[i]))" 0
-      (Excluded ENotListed "double -> int: ExpandFloatFactor.scaled_width_f_ge gives the lower bound (>= the old width) for factors up to 2^101; no theorem bounds the product below 2^31 (it needs factor * width < 2^31); observed by -fsanitize=float-cast-overflow only")];
+      (Excluded ECoveredElsewhere "Properties_links.c18_factor_width_conversions_defined (listing LinksC18.factor_conv_vals): domain of c18f_factor_never_narrower and width_i*factor_i <= 2^31-1 for the caller's factors (c18_adjusted_factor_not_above); NOT implied by the accepted arguments: c18_width_conversion_overflow_witness (2^20*2048, UBSan coloquinte.cpp:783)")];
   mkCF "DensityMachine.v" "Circuit::expandCellsToDensity" [
     mkC OPreInc MInt "++i" 0
       (Excluded ELoopCounter "counter of a for loop tested against nbCells() (an int) before every increment");
@@ -304,7 +304,7 @@ Definition cover_funs : list cfun := [
     mkC (OFloatToInt MDouble) MInt "(int)fracW" 0
       (Excluded ECoveredElsewhere "Properties_C18.c18f_density_conversion_defined (fw_ok): for a finite factor in [1, 2^63], 0 <= w < 2^31 and a finite cap in [0, 2^31), fracW (the capped product, binary64) is finite and in [0, 2^31): the conversion is defined. Not a machine-integer listing value");
     mkC OPreInc MInt "++newW" 0
-      (Excluded ENotListed "int newW = (int)fracW, then ++newW while missingArea >= h: Properties_C18.c18f_carry_invariant_step bounds the final width by fracW + missingArea / h (< fracW + 1 + 2^-20), so it fits int when the cap is at most 2^31 - 2 (inside C07's magnitudes the cap is at most 2^23 * maxExpandedWidth); no theorem states the int bound itself")];
+      (Excluded ECoveredElsewhere "Properties_links.c18_density_increment_defined / c18_density_increments_are_ints (listing LinksC18.density_inc_vals): cap = maxRowWidth*maxExpandedWidth finite, cap + H + 1 <= 2^31, H >= every cell height; holds for 0 <= maxExpandedWidth <= 254 inside C07's magnitudes; NOT implied by the accepted arguments: c18_increment_overflow_witness (cap 2^31-1.5, UBSan coloquinte.cpp:719)")];
   mkCF "DensityMachine.v" "Circuit::isFixed" [
 ];
   mkCF "DensityMachine.v" "DensityGrid::DensityGrid(int, const std::vector<Rectangle> &)" [
